@@ -82,7 +82,8 @@ def prepare_gdd(weather_df, sim_start, sim_end, gdd, crop, sum_fun):
     gdd_lists = {f'{stage}': [] for stage in growth_stages}
 
     # get list of season numbers to iterate across
-    seasons=weather_df['season'].unique()
+    # (days before the first planting date belong to no season)
+    seasons=weather_df['season'].dropna().unique()
 
     # iterate across seasons, calculating GDD to each CD growth stage
     # per season and storing in the gdd_lists lists
@@ -93,21 +94,33 @@ def prepare_gdd(weather_df, sim_start, sim_end, gdd, crop, sum_fun):
         # get cumulative GDD for current season
         gdd_cum=np.cumsum(season_data['gdd'])
 
+        def gdd_at(calendar_day):
+            """
+            cumulative GDD on a calendar day of the season; a season cut short
+            by the end of the simulation period is continued with its mean
+            daily GDD
+            """
+            day = int(calendar_day)
+            n_days = len(gdd_cum)
+            if day < n_days:
+                return gdd_cum.iloc[day]
+            return gdd_cum.iloc[-1] + (day - (n_days - 1)) * (gdd_cum.iloc[-1] / n_days)
+
         # Find GDD equivalent for each crop calendar day growth stage
-        gdd_lists['Emergence'].append(gdd_cum.iloc[int(crop.EmergenceCD)])
-        gdd_lists['Canopy10Pct'].append(gdd_cum.iloc[int(crop.Canopy10PctCD)])
-        gdd_lists['MaxRooting'].append(gdd_cum.iloc[int(crop.MaxRootingCD)])
-        gdd_lists['MaxCanopy'].append(gdd_cum.iloc[int(crop.MaxCanopyCD)])
-        gdd_lists['CanopyDevEnd'].append(gdd_cum.iloc[int(crop.CanopyDevEndCD)])
-        gdd_lists['Senescence'].append(gdd_cum.iloc[int(crop.SenescenceCD)])
-        gdd_lists['Maturity'].append(gdd_cum.iloc[int(crop.MaturityCD)])
-        gdd_lists['HIstart'].append(gdd_cum.iloc[int(crop.HIstartCD)])
-        gdd_lists['HIend'].append(gdd_cum.iloc[int(crop.HIendCD)])
+        gdd_lists['Emergence'].append(gdd_at(crop.EmergenceCD))
+        gdd_lists['Canopy10Pct'].append(gdd_at(crop.Canopy10PctCD))
+        gdd_lists['MaxRooting'].append(gdd_at(crop.MaxRootingCD))
+        gdd_lists['MaxCanopy'].append(gdd_at(crop.MaxCanopyCD))
+        gdd_lists['CanopyDevEnd'].append(gdd_at(crop.CanopyDevEndCD))
+        gdd_lists['Senescence'].append(gdd_at(crop.SenescenceCD))
+        gdd_lists['Maturity'].append(gdd_at(crop.MaturityCD))
+        gdd_lists['HIstart'].append(gdd_at(crop.HIstartCD))
+        gdd_lists['HIend'].append(gdd_at(crop.HIendCD))
         gdd_lists['YieldFormation'].append(crop.HIend - crop.HIstart)
 
         # Duration of flowering (gdd's) - (fruit/grain crops only)
         if crop.CropType == 3:
-            flowering_end=gdd_cum.iloc[int(crop.FloweringEndCD)]
+            flowering_end=gdd_at(crop.FloweringEndCD)
             # gdd's from sowing to end of flowering
             gdd_lists['FloweringEnd'].append(flowering_end)
             # Duration of flowering (gdd's)
